@@ -173,6 +173,7 @@ pub fn gen_bench(rng: &mut Rng, o: &BenchOpts) -> Case {
             init,
             on,
             panic_at: None,
+            late_mailbox: false,
         });
     }
     if o.submodels && n >= 2 {
